@@ -133,8 +133,12 @@ def main(argv=None):
     args = ap.parse_args(argv)
     pid = args.pid.upper()
     seed = int(os.environ.get("VERIF_SEED", "0") or 0)
-    os.makedirs(os.path.join(ROOT, "evidence"), exist_ok=True)
-    os.makedirs(os.path.join(ROOT, "replays"), exist_ok=True)
+    # mutant / scratch runs may redirect the artefacts so that committed evidence is not touched
+    evdir = os.environ.get("VERIF_EVIDENCE_DIR") or os.path.join(ROOT, "evidence")
+    rpdir = os.path.join(evdir, "replays") if os.environ.get("VERIF_EVIDENCE_DIR") else \
+        os.path.join(ROOT, "replays")
+    os.makedirs(evdir, exist_ok=True)
+    os.makedirs(rpdir, exist_ok=True)
     mod = importlib.import_module("props." + pid.lower())
 
     if args.replay:
@@ -203,7 +207,7 @@ def main(argv=None):
     )
     if ctx.notes:
         ev["notes"] = ctx.notes
-    evp = os.path.join(ROOT, "evidence", pid + ".json")
+    evp = os.path.join(evdir, pid + ".json")
     with open(evp, "w") as f:
         json.dump(ev, f, indent=1, default=repr)
         f.write("\n")
@@ -218,7 +222,7 @@ def main(argv=None):
     rc = 0
     for i, (sig, vs) in enumerate(new):
         v = vs[0]
-        rp = os.path.join(ROOT, "replays", "%s-%d.json" % (pid, i))
+        rp = os.path.join(rpdir, "%s-%d.json" % (pid, i))
         with open(rp, "w") as f:
             json.dump({"property": pid, "sig": sig, "desc": v.get("desc"),
                        "count": len(vs), **(v.get("replay") or {})},
